@@ -76,7 +76,28 @@ DegreeApiOk(r) ==
                   /\ r.parsedOk /\ r.parsedN = r.n /\ r.parsedSemitone = Size(iv)     \* reads back as the same interval
                   /\ ParseInterval(r.printed).iv = iv
 
+\* the spelling of the root: a letter with at most one accidental, written # / b or with the Unicode signs the chord text
+\* equally accepts, is that note; a root crd accepts is never read as a different note, and a string that is no note name
+\* has no "root + interval" to report (the chord form may also refuse the Unicode signs: then nothing is claimed)
+ParseNoteU(s) ==
+  IF Len(s) = 1 /\ IsLetterChar(s[1]) THEN [ok |-> TRUE, l |-> LetterOfChar(s[1]), a |-> 0]
+  ELSE IF Len(s) = 2 /\ IsLetterChar(s[1]) /\ s[2] \in {chSharp, chFlat, 9839, 9837}
+       THEN [ok |-> TRUE, l |-> LetterOfChar(s[1]), a |-> IF s[2] \in {chSharp, 9839} THEN 1 ELSE -1]
+  ELSE [ok |-> FALSE, l |-> 0, a |-> 0]
+RootSpellOk(r) ==
+  LET pr == ParseNoteU(r.root)  root == [l |-> pr.l, a |-> pr.a]
+      third == IF r.via = "attr" THEN 4 ELSE 3
+      pa == ParseNote(r.applied) IN
+  /\ r.terminated /\ ~r.panic
+  /\ (~r.ok => r.stdoutLen = 0 /\ r.stderrLen > 0)
+  /\ ((r.ok /\ r.via = "attr") => pr.ok)                          \* -r takes a note name: only a note name has a root + interval
+  /\ ((r.ok /\ pr.ok) =>                                          \* (-t takes chord text: blanks, `_` ... are C04's business)
+               /\ r.outRoot = PrintNote(root)                      \* it is the note that was written
+               /\ pa.ok /\ Pc([l |-> pa.l, a |-> pa.a]) = (NotePitch(root) + third) % 12)
+  /\ ((pr.ok /\ \A i \in 1..Len(r.root) : r.root[i] < 128) => r.ok)  \* the ASCII spellings are always accepted
+
 RecOk(r) == CASE r.kind = "skipped" -> TRUE
+              [] r.kind = "rootspell" -> RootSpellOk(r)
               [] r.kind = "degree" -> DegreeApiOk(r)
               [] r.kind = "describe" -> DescribeOk(r)
               [] r.kind = "notation" -> NotationOk(r)
